@@ -59,6 +59,24 @@ def tree_digest(tree):
 
 
 def run_case(ctg, case):
+    if case.get("seed_np"):
+        # the same integer seed given as a python int and as a numpy integer
+        import numpy as np
+
+        plain = dict(case, seed_np=False)
+        def attempt(c):
+            try:
+                return run_case(ctg, c)
+            except Exception as e:  # noqa
+                import traceback
+
+                if not any("/cotengra/" in fr.filename for fr in traceback.extract_tb(e.__traceback__)):
+                    raise
+                return {"raised": f"{type(e).__name__}: {str(e)[:80]}"}
+
+        d_int = attempt(plain)
+        d_np = attempt(dict(plain, seed=np.int64(case["seed"])))
+        return {"int_seed": d_int, "numpy_seed": d_np}
     if case.get("same_object") and case["api"] in SAME_OBJECT_APIS:
         # the same seeded, non-inplace call twice on ONE tree object (which a
         # first, differently seeded, reconfiguration has already been through):
